@@ -177,6 +177,7 @@ func (t *HHWheelTimer) Cancel(id int) bool {
 	defer t.guard.Unlock()
 
 	if node, found := t.refer[id]; found {
+		node.cancelled = true
 		t.pendingDel <- node
 		delete(t.refer, id)
 		return true
@@ -225,8 +226,10 @@ func (t *HHWheelTimer) worker(ready chan struct{}) {
 			t.update(current)
 
 		case node := <-t.pendingAdd:
-			node.deadline += t.tickTime + node.period
-			t.addNode(node)
+			if !t.isCancelled(node) { // else cancelled before the worker saw the start request
+				node.deadline += t.tickTime + node.period
+				t.addNode(node)
+			}
 
 		case node := <-t.pendingDel:
 			t.delTimer(node)
@@ -282,7 +285,16 @@ func (t *HHWheelTimer) addNode(node *WheelTimerNode) {
 }
 
 func (t *HHWheelTimer) delTimer(node *WheelTimerNode) {
-	node.bucket.removeNode(node)
+	if node.bucket != nil { // otherwise not in the wheel: never added, or already expired
+		node.bucket.removeNode(node)
+	}
+}
+
+func (t *HHWheelTimer) isCancelled(node *WheelTimerNode) bool {
+	t.guard.Lock()
+	var cancelled = node.cancelled
+	t.guard.Unlock()
+	return cancelled
 }
 
 func (t *HHWheelTimer) cascade(level, idx int) {
@@ -328,16 +340,25 @@ func (t *HHWheelTimer) expireNear() {
 		var next = node.next
 		node.unchain()
 
+		// decide under the guard: a cancelled timer (its cancel request is still
+		// on the way) is dropped, a one-shot timer leaves the table
+		t.guard.Lock()
+		var cancelled = node.cancelled
+		if !cancelled && node.period <= 0 {
+			delete(t.refer, node.id)
+		}
+		t.guard.Unlock()
+		if cancelled {
+			node = next
+			continue
+		}
+
 		t.C <- node.r // trigger
 
 		// schedule again
 		if node.period > 0 {
 			node.deadline = t.tickTime + node.period
 			t.addNode(node)
-		} else {
-			t.guard.Lock()
-			delete(t.refer, node.id)
-			t.guard.Unlock()
 		}
 		node = next
 	}
@@ -351,6 +372,8 @@ type WheelTimerNode struct {
 	deadline int64    // 到期时间(timeunit)
 	period   int64    // 间隔
 	r        Runnable // 到期任务
+
+	cancelled bool // set by Cancel, guarded by HHWheelTimer.guard
 }
 
 func newWheelTimerNode(id int, deadline, period int64, r Runnable) *WheelTimerNode {
